@@ -16,7 +16,7 @@ CLAIMED = {
  "C17": ("§5 C17", "On every path the same encode/decode operation on the same symbolic inputs is run in strict mode, after flipping the flag at run time, and after flipping it back: strict success implies identical lenient success, lenient raises only where strict raised, and flipping back restores the strict outcome; decided by the solver for all values of the C04/C05 input spaces."),
  "C07": ("§5 C07", "The real compu-method objects (IDENTICAL, LINEAR, SCALE-LINEAR, TAB-INTP, RAT-FUNC, SCALE-RAT-FUNC, TEXTTABLE; Limit and compare_odx_values) are executed on a symbolic value (8-bit quick / 12-16-bit thorough integers, or a binary64 grid k/4) under an exact IEEE-754 binary64 model of Python float arithmetic; validity is compared with the declared limits, integer results with 'a nearest integer of the exact rational formula' in wide bit-vectors, float results with the reference formula; injective methods must round-trip. FP obligations are decided by cvc5, the rest by z3."),
  "C05": ("§5 C05", "The whole message is symbolic: every byte string of each enumerated length is decoded by the real Request.decode for every catalogue description, and by DiagLayer.decode on the shipped somersault database (lengths 0..3 quick / 0..4 thorough; the bytes that walk the prefix-tree dictionaries are value-forked by the engine, the rest stays symbolic). On every path the outcome must be a result or DecodeError, and messages shorter than the reference's minimal length must be rejected."),
- "C01": ("§5 C01", "Round trip Request.encode -> decode on the real code with every physical value symbolic (integers to 64-bit fields, byte-field contents, binary64 floats) for each enumerated description of the catalogue; z3 decides per path that the decoded value equals the encoded one for ALL values, that the following parameter is still found and that the decoder consumed the whole PDU."),
+ "C01": ("§5 C01", "Round trip Request.encode -> decode on the real code with every physical value symbolic (integers to 64-bit fields, byte-field contents, binary64 floats) for each enumerated description of the catalogue (~2 900 single-DOP descriptions over bit length x position x byte order x encoding x diag-coded type x bit mask x compu method, and 45 nested ones: structures, four field kinds, multiplexers, tables, DTC, environment data, length keys, SYSTEM, echoes); z3 decides per path that the decoded value equals the encoded one for ALL values, that the following parameter is still found and that the decoder consumed the whole PDU."),
  "C02": ("§5 C02", "On every success path of the real encoder the PDU is compared, as a bit-vector equality over all values, with the PDU laid out by an independent reference statement of the ODX wire format (models/odxref.py); the reference PDU is decoded back; representable values must be accepted."),
  "C04": ("§5 C04", "Values range over representable AND unrepresentable inputs (|v| <= 2^(bl+2), byte fields of every length 0..n+1, unencodable/over/under-long strings): on EVERY path the outcome must be an OdxError or a PDU that decodes back to the input; any other exception class or a silently altered value is a violation. Solver verdict per path."),
  "C08": ("§5 C08", "The real get_static_bit_length()/coded_const_prefix() answers are confronted with the symbolic encoder: on every success path 8*len(pdu) equals the static length and the constant prefix is a prefix of the PDU, for all values."),
